@@ -1,9 +1,10 @@
 package main
 
 import (
+	"encoding/json"
 	"fmt"
-	"sort"
 	"os"
+	"sort"
 	"strings"
 
 	"golang.org/x/tools/go/ssa"
@@ -88,6 +89,11 @@ func runSurvey(e *Engine, what string) {
 			names = append(names, n)
 		}
 		sort.Strings(names)
+		if os.Getenv("ANCHOR_FIELDS") != "" {
+			b, _ := json.MarshalIndent(e.fieldReq, "", " ")
+			_, _ = os.Stdout.Write(b)
+			return
+		}
 		e.dumpAnchors(names)
 	case "acc":
 		for _, f := range e.ScopeFuncs() {
